@@ -4,6 +4,8 @@ import (
 	"bytes"
 	"encoding/json"
 	"fmt"
+	"io"
+	"sync"
 
 	stun "github.com/pion/stun/v3"
 )
@@ -65,6 +67,59 @@ var c19Bodies = func() [][]byte {
 		append(attr(0x0006, []byte("user")), attr(0x8020, xor4)...),
 	}
 }()
+
+// c19Conn records what is written and never delivers anything.
+type c19Conn struct {
+	mu     sync.Mutex
+	writes [][]byte
+	closed chan struct{}
+	once   sync.Once
+}
+
+func (c *c19Conn) Read(p []byte) (int, error) { <-c.closed; return 0, io.EOF }
+func (c *c19Conn) Write(p []byte) (int, error) {
+	c.mu.Lock()
+	c.writes = append(c.writes, append([]byte(nil), p...))
+	c.mu.Unlock()
+	return len(p), nil
+}
+func (c *c19Conn) Close() error { c.once.Do(func() { close(c.closed) }); return nil }
+
+// c19ThroughClient sends a message of type t through Indicate, Start and Do(m, nil): the type word on the wire is
+// the message's, and the message's type is still t afterwards.
+func c19ThroughClient(t stun.MessageType, want uint16) (string, string) {
+	conn := &c19Conn{closed: make(chan struct{})}
+	cl, err := stun.NewClient(conn, stun.WithNoRetransmit)
+	if err != nil {
+		return "harness", err.Error()
+	}
+	defer cl.Close()
+	for wi, send := range []func(m *stun.Message) error{
+		func(m *stun.Message) error { return cl.Indicate(m) },
+		func(m *stun.Message) error { return cl.Start(m, func(stun.Event) {}) },
+		func(m *stun.Message) error { return cl.Do(m, nil) },
+	} {
+		m := new(stun.Message)
+		m.TransactionID = [12]byte{0xC1, 0x90, byte(wi), byte(want >> 8), byte(want)}
+		m.Type = t
+		m.WriteHeader()
+		m.Add(stun.AttrSoftware, []byte("c19"))
+		before := len(conn.writes)
+		if err := send(m); err != nil {
+			return "harness", fmt.Sprintf("client call %d failed: %v", wi, err)
+		}
+		conn.mu.Lock()
+		ws := conn.writes[before:]
+		conn.mu.Unlock()
+		if len(ws) != 1 || len(ws[0]) < 2 {
+			return "client-wire-type", fmt.Sprintf("client call %d (0 Indicate, 1 Start, 2 Do(m,nil)) with a message of type %v wrote %d datagrams", wi, t, len(ws))
+		}
+		if w := uint16(ws[0][0])<<8 | uint16(ws[0][1]); w != want || m.Type != t || uint16(m.Raw[0])<<8|uint16(m.Raw[1]) != want {
+			return "client-wire-type", fmt.Sprintf("client call %d (0 Indicate, 1 Start, 2 Do(m,nil)) with a message of type %v (%#04x): type word on the wire %#04x, m.Type afterwards %v, m.Raw[0:2] afterwards %#04x", wi, t, want, w, m.Type, uint16(m.Raw[0])<<8|uint16(m.Raw[1]))
+		}
+	}
+	return "", ""
+}
 
 type c19Case struct {
 	Kind   string `json:"kind"` // enc | dec | wire
@@ -161,6 +216,44 @@ func c19Check1(k c19Case) (string, string) {
 			if w := uint16(h2.Raw[0])<<8 | uint16(h2.Raw[1]); w != want {
 				return "enc-wire-settype-stale", fmt.Sprintf("MessageType(%v).AddTo on a Message whose Type field already is %v while its bytes say %#04x left %#04x, want %#04x", t, t, prevWord, w, want)
 			}
+		}
+		// the buffer held something else before: a datagram whose first two bits are set (decoded: the decoder ignores
+		// them; or refused: RTP, DTLS, ChannelData land in the same read buffer), or stale 0xFF bytes in storage
+		// that is merely re-exposed. Every way of writing the type writes all 16 bits.
+		for _, top := range []uint16{0x4000, 0x8000, 0xC000} {
+			hdr := make([]byte, 20)
+			hdr[0], hdr[1] = byte((want^0x3FFF|top)>>8), byte(want^0x3FFF)
+			hdr[4], hdr[5], hdr[6], hdr[7] = 0x21, 0x12, 0xA4, 0x42
+			for wi, write := range []func(h *stun.Message){
+				func(h *stun.Message) { h.SetType(t) },
+				func(h *stun.Message) { h.Type = t; h.WriteHeader() },
+				func(h *stun.Message) { h.Type = t; h.Encode() },
+				func(h *stun.Message) { h.Type = t; h.WriteType() },
+				func(h *stun.Message) { _ = t.AddTo(h) },
+				func(h *stun.Message) { _ = h.Build(t) },
+			} {
+				h := new(stun.Message)
+				_, _ = h.Write(hdr) // decodes (the two leading bits are not part of the type)
+				write(h)
+				if len(h.Raw) < 2 {
+					return "enc-wire-stale-leading-bits", fmt.Sprintf("way %d of writing type %v left a %d-byte Raw", wi, t, len(h.Raw))
+				}
+				if w := uint16(h.Raw[0])<<8 | uint16(h.Raw[1]); w != want {
+					return "enc-wire-stale-leading-bits", fmt.Sprintf("way %d of writing type %v (0 SetType, 1 WriteHeader, 2 Encode, 3 WriteType, 4 AddTo, 5 Build) into a Message that had decoded a header with type word %#04x left %#04x on the wire, want %#04x", wi, t, uint16(hdr[0])<<8|uint16(hdr[1]), w, want)
+				}
+				// storage that is re-exposed, not cleared: a Message whose Raw was cut to length 0 over 0xFF bytes
+				g := &stun.Message{Raw: bytes.Repeat([]byte{0xFF}, 64)[:0]}
+				write(g)
+				if len(g.Raw) >= 2 {
+					if w := uint16(g.Raw[0])<<8 | uint16(g.Raw[1]); w != want {
+						return "enc-wire-stale-leading-bits", fmt.Sprintf("way %d of writing type %v into a Message whose empty Raw lies over 0xFF bytes left %#04x on the wire, want %#04x", wi, t, w, want)
+					}
+				}
+			}
+		}
+		// ... and what the client puts on the wire for a message of this type is the message (Indicate, Start, Do)
+		if key, d := c19ThroughClient(t, want); key != "" {
+			return key, d
 		}
 		// WriteHeader renders the type into its two bytes whatever the other fields hold (Length is a uint32
 		// that a reused Message may carry over from a larger payload)
